@@ -665,6 +665,14 @@ def shallow_match_table(ctx, sym):
            run(cm.ast('alias', name='a', asname='z'), cm.ast('alias', name='b', asname='z')), False)
     yield ('content', 'two fields: first agrees, last differs',
            run(cm.ast('alias', name='a', asname='y'), cm.ast('alias', name='a', asname='z')), False)
+    yield ('content', 'Global [a, b] against Global [a] (list of identifiers: b occurs nowhere)',
+           run(cm.ast('Global', names=['a', 'b']), cm.ast('Global', names=['a'])), False)
+    yield ('content', 'Global [a] against Global [a, b]',
+           run(cm.ast('Global', names=['a']), cm.ast('Global', names=['a', 'b'])), False)
+    yield ('content', 'Global [a, b] against Global [a, b]',
+           run(cm.ast('Global', names=['a', 'b']), cm.ast('Global', names=['a', 'b'])), True)
+    yield ('content', 'Nonlocal [a, b] against Nonlocal [a, c]',
+           run(cm.ast('Nonlocal', names=['a', 'b']), cm.ast('Nonlocal', names=['a', 'c'])), False)
     yield ('optional', 'absent optional child in the pattern (alias asname=None) against a present one',
            run(cm.ast('alias', name='a', asname=None), cm.ast('alias', name='a', asname='z')), True)
     yield ('optional', 'pattern literal None against student literal 5', run(const(None), const(5)), False)
